@@ -192,7 +192,7 @@ fn add_agg_query(r: &mut Rng, p: &mut Program) {
             _ => {}
         }
     }
-    let f = *r.pick(&[AggFun::Count, AggFun::Sum, AggFun::Min, AggFun::Max, AggFun::CountDistinct]);
+    let f = *r.pick(&[AggFun::Count, AggFun::Sum, AggFun::Min, AggFun::Max, AggFun::CountDistinct, AggFun::CountDistinct]);
     let av = *r.pick(&vars);
     let mut args = vec![];
     let ngroup = r.range(0, 2);
@@ -225,6 +225,16 @@ fn agg_corpus() -> Vec<(Program, Edb, &'static str)> {
             vec![(0, vec![t2(1, 5), t2(1, 7), t2(2, 5)]), (1, vec![t2(1, 1), t2(1, 2), t2(2, 9)])],
             "agg-join-wild",
         ));
+    }
+    // aggregated column in the middle of a ternary atom, group column last / first
+    for f in [AggFun::Count, AggFun::Sum, AggFun::Min, AggFun::Max, AggFun::CountDistinct] {
+        for (g, a) in [(2u32, 1u32), (0, 1), (0, 2), (2, 0)] {
+            v.push((
+                Program { clauses: vec![Clause { head: 99, args: vec![HV(g), HTerm::Agg(f, a)], body: vec![Pos(3, vec![Var(0), Var(1), Var(2)])] }] },
+                vec![(3, vec![t3(1, 5, 0), t3(2, 5, 0), t3(1, 6, 0), t3(3, 5, 1), t3(0, 7, 1), t3(0, 5, 1), t3(2, 6, 2)])],
+                "agg-ternary-column-order",
+            ));
+        }
     }
     // recursive min: shortest path (DESIGN §9 row 8)
     v.push((
